@@ -397,7 +397,7 @@ _definitions = {
                     "var_keyword": None,
                 },
             },
-            "docstring": {"type": "string"},
+            "docstring": {"$ref": "#/definitions/ConstantString"},
             "type": {
                 "type": "string",
                 "enum": ["GENERATOR", "COROUTINE", "ASYNC_GENERATOR"],
@@ -410,21 +410,21 @@ _definitions = {
         "properties": {
             "positional_only": {
                 "type": "array",
-                "items": {"type": "string"},
+                "items": {"$ref": "#/definitions/ConstantString"},
                 "default": [],
             },
             "positional_or_keyword": {
                 "type": "array",
-                "items": {"type": "string"},
+                "items": {"$ref": "#/definitions/ConstantString"},
                 "default": [],
             },
-            "var_positional": {"type": "string"},
+            "var_positional": {"$ref": "#/definitions/ConstantString"},
             "keyword_only": {
                 "type": "array",
-                "items": {"type": "string"},
+                "items": {"$ref": "#/definitions/ConstantString"},
                 "default": [],
             },
-            "var_keyword": {"type": "string"},
+            "var_keyword": {"$ref": "#/definitions/ConstantString"},
         },
         "description": Args.__doc__,
     },
@@ -451,12 +451,16 @@ _definitions = {
                     "items": {"$ref": "#/definitions/Instruction"},
                 },
             },
-            "filename": {"type": "string"},
+            "filename": {"$ref": "#/definitions/ConstantString"},
             "first_line_number": {"type": "integer"},
-            "name": {"type": "string"},
+            "name": {"$ref": "#/definitions/ConstantString"},
             "stacksize": {"type": "integer"},
             "type": {"$ref": "#/definitions/Function"},
-            "freevars": {"type": "array", "items": {"type": "string"}, "default": []},
+            "freevars": {
+                "type": "array",
+                "items": {"$ref": "#/definitions/ConstantString"},
+                "default": [],
+            },
             "_nested": {"type": "boolean", "default": False},
             "_additional_line": {"$ref": "#/definitions/AdditionalLine"},
             "_additional_args": {
@@ -495,7 +499,7 @@ _definitions = {
         "type": "object",
         "required": ["name"],
         "properties": {
-            "name": {"type": "string"},
+            "name": {"$ref": "#/definitions/ConstantString"},
             "_index_override": {"type": "integer"},
         },
         "description": Name.__doc__,
@@ -504,7 +508,7 @@ _definitions = {
         "type": "object",
         "required": ["varname"],
         "properties": {
-            "varname": {"type": "string"},
+            "varname": {"$ref": "#/definitions/ConstantString"},
             "_index_override": {"type": "integer"},
         },
         "description": Varname.__doc__,
@@ -609,14 +613,14 @@ _definitions = {
     "Freevar": {
         "type": "object",
         "required": ["freevar"],
-        "properties": {"freevar": {"type": "string"}},
+        "properties": {"freevar": {"$ref": "#/definitions/ConstantString"}},
         "description": Freevar.__doc__,
     },
     "Cellvar": {
         "type": "object",
         "required": ["cellvar"],
         "properties": {
-            "cellvar": {"type": "string"},
+            "cellvar": {"$ref": "#/definitions/ConstantString"},
             "_index_override": {"type": "integer"},
         },
         "description": Cellvar.__doc__,
